@@ -149,8 +149,14 @@ Variable tx_table : list (str * value).              (* TRANSACTION_CHARACTERIST
 
 (* VALIDATORS: values the server itself depends on are checked when assigned *)
 Definition charset_var (n : str) : bool := str_eqb n n_cs_client || str_eqb n n_cs_connection || str_eqb n n_cs_results.
+(* the encodings a client cannot declare (as in MySQL): their zero bytes cannot be told from the protocol's terminators *)
+Definition not_for_clients : list str :=
+  [[117; 99; 115; 50]; [117; 116; 102; 49; 54]; [117; 116; 102; 49; 54; 108; 101]; [117; 116; 102; 51; 50]].   (* ucs2 utf16 utf16le utf32 *)
 Definition validate (n : str) (v : value) : bool :=
-  if charset_var n then match v with VStr s => existsb (str_eqb s) usable_charsets | _ => false end
+  if charset_var n then match v with
+                        | VStr s => existsb (str_eqb s) usable_charsets &&
+                                    negb (str_eqb n n_cs_client && existsb (str_eqb s) not_for_clients)
+                        | _ => false end
   else if str_eqb n n_time_zone then match v with VStr s => match parse_tz s with Some _ => true | None => false end | _ => false end
   else true.
 
